@@ -422,6 +422,9 @@ def independent(repo: "BaseRepo", commit_ids: Sequence[ObjectID]) -> list[Object
     Returns:
       list of commit ids that are not ancestors of any other commits in the list
     """
+    # A commit listed twice is one commit, not an ancestor of itself (git
+    # merge-base --independent A A prints A).
+    commit_ids = list(dict.fromkeys(commit_ids))
     if not commit_ids:
         return []
     if len(commit_ids) == 1:
